@@ -117,6 +117,8 @@ def run_case(case: dict[str, Any]) -> dict[str, Any]:
                 last_ts = ts
                 uid[0] += 1
                 my = float(uid[0])
+                if val_kind == "zero":
+                    my = 0.0  # a valid sample whose value is zero
                 if val_kind == "none":
                     s = Sample(ts, None)
                 elif val_kind == "nan":
@@ -126,7 +128,7 @@ def run_case(case: dict[str, Any]) -> dict[str, Any]:
                 await sender.send(s)
                 await asyncio.sleep(0)
                 await asyncio.sleep(0)
-                if val_kind == "ok":
+                if val_kind in ("ok", "zero"):
                     rec["arrivals"][i].append({"ts": ts, "value": my, "t_sent": now})
 
         async def resample_forever() -> None:
